@@ -40,6 +40,8 @@ def main():
             rc_all[prop] = p.returncode
     finally:
         subprocess.run(["git", "-C", "/repo", "checkout", "--", "."], check=True)
+        # evidence written while the mutant was applied does not describe the unchanged tree
+        subprocess.run(["git", "-C", "/verif", "checkout", "--", "evidence"], check=False)
     return 0
 
 if __name__ == "__main__":
